@@ -41,7 +41,7 @@ impl Family for C11Family {
         FamilyInfo {
             id: "C11",
             level: "exploration",
-            rule: "the finite product store capability{full, non-discoverable only, forced} x residentKey{absent, discouraged, preferred, required} x requireResidentKey{2} x credProps{absent, false, true} at WebAuthn level (72 cells) plus capability{3} x rk{2} at CTAP level (6 cells); run index i covers cell i mod 78; each cell registers and then authenticates with the new credential allowed; nuisance parameters (store topology, yields, user handles, counters, id length) are seeded. distinct_nontrivial = product cells covered.",
+            rule: "the finite product store capability{full, non-discoverable only, forced} x residentKey{absent, discouraged, preferred, required} x requireResidentKey{2} x credProps{absent, false, true} at WebAuthn level (72 cells) plus capability{3} x rk{2} at CTAP level (6 cells); run index i covers cell i mod 78; each cell registers and then authenticates with the new credential allowed; nuisance parameters (store topology, yields, user handles, counters, id length, authenticator configuration incl. hmac-secret with a prf request riding on the registration, a capability change between the authenticator's first getInfo and the registration, a second authenticator keeping the shared store busy) are seeded. distinct_nontrivial = product cells covered.",
             assumptions: &["the WebAuthn Level 3 mapping table for residentKey/requireResidentKey is restated independently in the oracle"],
             real: &["Client::{register,authenticate} incl. map_rk and credProps output", "Authenticator::{make_credential,get_assertion,get_info}", "DiscoverabilitySupport::is_passkey_discoverable"],
             stubs: &["executor", "SimStore seam + reference store (capability knob)", "SimUser", "seeded RNG behind the hook"],
@@ -62,7 +62,11 @@ impl Family for C11Family {
         let cell = index % CELLS;
         let mut store = gen_store_cfg(&mut r);
         let mut actor = gen_actor(&mut r);
-        actor.hmac = HmacCfg::None;
+        // one cell run in three: an authenticator with hmac-secret and a registration that also asks for prf
+        let with_prf = r.chance(1, 3);
+        if !with_prf {
+            actor.hmac = HmacCfg::None;
+        }
         let rp = gen_rp(&mut r);
         let reg_kind;
         if cell < CLIENT_CELLS {
@@ -91,6 +95,9 @@ impl Family for C11Family {
                 s.sel = None;
             }
             s.cred_props = cred_props;
+            if with_prf {
+                s.prf = Some(super::c09::gen_prf_in(&mut r, false, false));
+            }
             reg_kind = OpKind::Register(s);
         } else {
             let n = cell - CLIENT_CELLS;
@@ -105,6 +112,14 @@ impl Family for C11Family {
         let mut c = ceremony(Backend::Ref, wrap, store);
         c.rng_seed = r.next_u64();
         c.cell = Some(cell as u32);
+        // one cell run in four: the store reported another capability when this authenticator was
+        // first asked about itself; the cell's capability is what it reports from then on
+        if r.chance(1, 4) {
+            let cell_cap = c.store.capability;
+            c.store.capability = *r.pick(&CAPS.iter().copied().filter(|k| *k != cell_cap).collect::<Vec<_>>());
+            actor.ops.push(plain_op(OpKind::GetInfo { via_trait: false }));
+            actor.ops.push(plain_op(OpKind::SetCapability { capability: cell_cap, verification: actor.verification }));
+        }
         let mut op = plain_op(reg_kind);
         op.yields = gen_yields(&mut r, 8, 2);
         actor.ops.push(op);
@@ -146,7 +161,7 @@ impl Family for C11Family {
         let rec = run_and_measure(c, stats);
         let mut j = Judge::new("C11", scn, &rec);
         stats.cells_total = CELLS;
-        for p in ["cell_on_contended_store", "required_rk_refused_by_non_discoverable_store", "forced_discoverable_overrides_request", "cred_props_reported", "assertion_returned_user_handle", "assertion_without_user_handle"] {
+        for p in ["cell_on_contended_store", "required_rk_refused_by_non_discoverable_store", "forced_discoverable_overrides_request", "cred_props_reported", "assertion_returned_user_handle", "assertion_without_user_handle", "capability_changed_before_registration", "cred_props_with_prf_on_hmac_authenticator"] {
             stats.declare_probe(p);
         }
         if rec.panic.is_some() || rec.outcome != Outcome2::Done {
@@ -160,11 +175,26 @@ impl Family for C11Family {
         if c.actors.len() > 1 {
             stats.probe("cell_on_contended_store");
         }
-        let cap = c.store.capability;
-        let Some(reg) = rec.op(0, 0) else { return Vec::new() };
+        // the registration is the first ceremony; harness operations may precede it
+        let Some(reg_idx) = c.actors[0].ops.iter().position(|o| matches!(o.kind, OpKind::Register(_) | OpKind::MakeCredential(_))) else { return Vec::new() };
+        // capability in force at the registration
+        // (a change the harness could not apply because another task held the store's lock does not count)
+        let cap = c.actors[0].ops[..reg_idx]
+            .iter()
+            .enumerate()
+            .rev()
+            .find_map(|(i, o)| match &o.kind {
+                OpKind::SetCapability { capability, .. } if matches!(rec.op(0, i).map(|r| &r.result), Some(OpResult::SetCounter(true))) => Some(*capability),
+                _ => None,
+            })
+            .unwrap_or(c.store.capability);
+        if cap != c.store.capability {
+            stats.probe("capability_changed_before_registration");
+        }
+        let Some(reg) = rec.op(0, reg_idx) else { return Vec::new() };
         let kind = &op_spec(c, reg).kind;
         // the rk option the authenticator was sent, as seen at the store seam
-        let rk_sent = rec.events_of(0, 0).find_map(|e| match &e.ev {
+        let rk_sent = rec.events_of(0, reg_idx).find_map(|e| match &e.ev {
             Ev::Save { rk, .. } => Some(*rk),
             _ => None,
         });
@@ -209,6 +239,9 @@ impl Family for C11Family {
                     match (s.cred_props, &r.cred_props_rk) {
                         (Some(true), Some(reported)) => {
                             stats.probe("cred_props_reported");
+                            if s.prf.is_some() && c.actors[0].hmac != HmacCfg::None {
+                                stats.probe("cred_props_with_prf_on_hmac_authenticator");
+                            }
                             if *reported != Some(saved.user_handle.is_some()) {
                                 j.fail("cred-props-untruthful", format!("credProps.rk is {reported:?} but the stored credential is discoverable: {}", saved.user_handle.is_some()));
                             }
@@ -218,7 +251,7 @@ impl Family for C11Family {
                     }
                 }
                 // the assertion returns a user handle exactly when the credential stores one
-                for a in [rec.op(0, 1), rec.op(0, 2)].into_iter().flatten() {
+                for a in [rec.op(0, reg_idx + 1), rec.op(0, reg_idx + 2)].into_iter().flatten() {
                     let handle = match &a.result {
                         OpResult::Auth(Ok(r)) => Some(r.user_handle.clone()),
                         OpResult::Ga(Ok(r)) => Some(r.user_id.clone()),
